@@ -24,6 +24,7 @@ def generate(tier, seed):
 
 
 impl = fitcase.impl_fit
+shrink = fitcase.shrink
 
 
 def model_requests(case):
